@@ -12,9 +12,13 @@ MANIFEST = dict(
          "get_file_index_by_log_index / move_to_index_by_count (after the recorded repairs): truncate_exact "
          "(abstract log = prefix below k), removed_bytes_gone (data and index area hold nothing of the suffix), "
          "append_after_truncate_accepted, removed_bytes_never_reparse and truncate_then_reopen (truncate, "
-         "re-append shorter/equal/longer, reopen = abstract log). Manager layer: which files a delete-from drops, "
-         "truncates or leaves (manager_truncate_partial); the full multi-file refinement is left to the "
-         "correspondence. Model tied to the code by differential runs of the real LogInnerManager and FileStore "
+         "re-append shorter/equal/longer, reopen = abstract log). Manager layer (several files, pointer files, "
+         "split-off positions): truncate_exact_multi_file / manager_truncate (delete-from k leaves exactly the "
+         "abstract prefix below k whichever files it touches, drops or reopens, and re-establishes the catalogue "
+         "invariant), append_after_truncate_accepted_multi_file, truncate-then-any-history-then-restart via the "
+         "manager simulation mgr_refines_alog (the old routing theorem manager_truncate_partial is kept); scope: "
+         "k at or above the first entry and above the newest snapshot pointer (a cut AT a pointer file's index "
+         "is refuted formally: mgr_strip_rep_needs_head_ok). Model tied to the code by differential runs of the real LogInnerManager and FileStore "
          "on nasty cut histories (first, 128j, 128j+-1, end-1, end; pointer and rollover catalogues; cuts in closed "
          "files; id re-use) plus an independent property oracle.",
     note="Trusted: Coq kernel+vm_compute, the hand transcription (checked by the correspondence), harness and runner "
